@@ -20,6 +20,14 @@ type ExpRec struct {
 	Type  uint16
 	RR    dns.RR // expected parser result (conventions of BuildRR)
 
+	// TTLAlts (non-empty only for a record that omits its TTL right after an $INCLUDE / $GENERATE
+	// whose text stated TTLs): the values the TTL may take - the includer's own inherited value
+	// and every value that a parser which lets the TTL state leak out of the included text (BIND
+	// does for $TTL) would use. MayFail: the includer itself has no TTL source at that point,
+	// so refusing the record ("missing TTL") is a correct outcome as well.
+	TTLAlts []uint32
+	MayFail bool
+
 	// provenance
 	File string
 	Item int
@@ -39,6 +47,8 @@ type RecFact struct {
 	AbsOrigin wm.Name   // KOrigin / KInclude with origin: the absolute value
 	// number of records of the denotation before this item started / after it finished
 	RecsBefore, RecsAfter int
+	TTLUncertain          bool // the record omits its TTL where several values are acceptable
+	NoTTLState            bool // ... and the file itself has no TTL source at that point
 }
 
 // Denotation is the meaning of a zone model.
@@ -74,6 +84,8 @@ type State struct {
 	// included text may or may not be in force) is set.
 	OwnerUnknown bool
 	U1, U2       bool
+	LeakLast     []uint32 // stated TTLs of the included text (candidates while U1)
+	LeakDollar   []uint32 // $TTL values of the included text (candidates while U2)
 
 	Depth int
 }
@@ -97,6 +109,57 @@ func (s *State) Inherit() (uint32, bool) {
 
 // TTLAsserted reports whether the value of Inherit is asserted at this point.
 func (s *State) TTLAsserted() bool { return !s.U1 && !s.U2 }
+
+// TTLCandidates lists the acceptable values of an omitted TTL: the file's own inherited value
+// (own reports whether there is one) and, while the state is uncertain, what may have leaked.
+func (s *State) TTLCandidates() (cands []uint32, own bool) {
+	add := func(v uint32) {
+		for _, c := range cands {
+			if c == v {
+				return
+			}
+		}
+		cands = append(cands, v)
+	}
+	if v, ok := s.Inherit(); ok {
+		add(v)
+		own = true
+	}
+	if s.U1 {
+		for _, v := range s.LeakLast {
+			add(v)
+		}
+	}
+	if s.U2 {
+		for _, v := range s.LeakDollar {
+			add(v)
+		}
+	}
+	return
+}
+
+// AfterGenerate: what a $GENERATE leaves uncertain in the enclosing file.
+func (s *State) AfterGenerate(g *Generate) {
+	s.OwnerUnknown = true
+	if g.HasTTL && s.DollarTTL == nil {
+		s.U1 = true
+		s.LeakLast = append(append([]uint32(nil), s.LeakLast...), g.TTL)
+	}
+}
+
+// AfterInclude: what an $INCLUDE leaves uncertain in the including file. Origin and carried
+// owner are those from before the directive (BIND documents both as reverting); the TTL state is
+// the includer's own, but a value of the included text may have leaked.
+func (s *State) AfterInclude(dollars, stated []uint32) {
+	if len(dollars) > 0 {
+		s.U2 = true
+		s.LeakDollar = append(append([]uint32(nil), s.LeakDollar...), dollars...)
+	}
+	if len(stated) > 0 && s.DollarTTL == nil {
+		s.U1 = true
+		s.LeakLast = append(append([]uint32(nil), s.LeakLast...), stated...)
+	}
+}
 
 // Absolute completes a name as written.
 func (s *State) Absolute(n MName, owner bool) (wm.Name, error) {
@@ -219,8 +282,7 @@ func (ip *interp) file(file string, st *State) error {
 			f.AbsOrigin = o
 			st.Origin = namep(o)
 		case KTTL:
-			st.DollarTTL = u32p(it.DirTTL)
-			st.U1, st.U2 = false, false
+			st.SetDollarTTL(it.DirTTL)
 		case KGenerate:
 			g := it.Gen
 			if g == nil {
@@ -251,10 +313,7 @@ func (ip *interp) file(file string, st *State) error {
 				rec.File, rec.Item, rec.Step = file, i, v
 				ip.den.Recs = append(ip.den.Recs, *rec)
 			}
-			st.OwnerUnknown = true
-			if g.HasTTL && st.DollarTTL == nil {
-				st.U1 = true
-			}
+			st.AfterGenerate(g)
 		case KInclude:
 			sub := *st // origin and TTL state are copied in
 			if it.HasIncOrigin {
@@ -270,6 +329,7 @@ func (ip *interp) file(file string, st *State) error {
 			}
 			sub.PrevOwner, sub.OwnerUnknown = nil, true
 			sub.Depth = st.Depth + 1
+			sub.ViaGenerateDefault(it)
 			if it.ViaGenerate && it.HasIncOrigin && !PlainLabels(it.IncOrigin) {
 				return invalid("origin of a $GENERATE-made $INCLUDE needs plain labels")
 			}
@@ -299,15 +359,8 @@ func (ip *interp) file(file string, st *State) error {
 			if ip.den.Err != "" {
 				return nil
 			}
-			// the includer's origin and TTL state are as before; what is not asserted:
-			st.OwnerUnknown = true
-			dollar, stated := ip.subtreeTTL(fname, map[string]bool{})
-			if dollar {
-				st.U2 = true
-			}
-			if stated && st.DollarTTL == nil {
-				st.U1 = true
-			}
+			// the includer's origin, carried owner and TTL state are as before
+			st.AfterInclude(ip.subtreeTTL(fname, map[string]bool{}))
 			continue
 		default:
 			return invalid("bad item kind")
@@ -317,8 +370,8 @@ func (ip *interp) file(file string, st *State) error {
 	return nil
 }
 
-// subtreeTTL reports whether the file (or anything it includes) has a $TTL directive / states a TTL.
-func (ip *interp) subtreeTTL(file string, seen map[string]bool) (dollar, stated bool) {
+// subtreeTTL lists the $TTL values and the stated TTLs of the file and of everything it includes.
+func (ip *interp) subtreeTTL(file string, seen map[string]bool) (dollars, stated []uint32) {
 	if seen[file] {
 		return
 	}
@@ -326,17 +379,44 @@ func (ip *interp) subtreeTTL(file string, seen map[string]bool) (dollar, stated 
 	for _, it := range ip.z.Files[file] {
 		switch it.Kind {
 		case KTTL:
-			dollar = true
+			dollars = append(dollars, it.DirTTL)
 		case KRec:
-			stated = stated || it.HasTTL
+			if it.HasTTL {
+				stated = append(stated, it.TTL)
+			}
 		case KGenerate:
-			stated = stated || (it.Gen != nil && it.Gen.HasTTL)
+			if it.Gen != nil && it.Gen.HasTTL {
+				stated = append(stated, it.Gen.TTL)
+			}
 		case KInclude:
 			d, s := ip.subtreeTTL(ResolveInclude(file, it.File), seen)
-			dollar, stated = dollar || d, stated || s
+			dollars, stated = append(dollars, d...), append(stated, s...)
 		}
 	}
 	return
+}
+
+// GenerateFallbackTTL is the TTL the library gives the expansion of a $GENERATE when the file has
+// no TTL source at all (its documented default for records without one).
+const GenerateFallbackTTL = 3600
+
+// ViaGenerateDefault: a file included through "$GENERATE ... $$INCLUDE" is read with the TTL state
+// of the expansion; where the file that holds the $GENERATE has no TTL source, that is the
+// fallback default.
+func (s *State) ViaGenerateDefault(it *Item) {
+	if !it.ViaGenerate {
+		return
+	}
+	if _, ok := s.Inherit(); !ok {
+		s.DefTTL = u32p(GenerateFallbackTTL)
+	}
+}
+
+// SetDollarTTL is the effect of a $TTL directive.
+func (s *State) SetDollarTTL(v uint32) {
+	s.DollarTTL = u32p(v)
+	s.U1, s.U2 = false, false
+	s.LeakLast, s.LeakDollar = nil, nil
 }
 
 var errMissingTTL = errors.New("missing TTL")
@@ -348,17 +428,25 @@ func (s *State) Record(it *Item, f *RecFact) (*ExpRec, error) {
 		return nil, err
 	}
 	var ttl uint32
+	var alts []uint32
+	var mayFail bool
 	if it.HasTTL {
 		ttl = it.TTL
 	} else {
 		if !s.TTLAsserted() {
-			return nil, invalid("omitted TTL where the inherited value is not asserted")
+			c, own := s.TTLCandidates()
+			if len(c) == 0 {
+				return nil, errMissingTTL
+			}
+			alts, mayFail = c, !own
+			ttl = c[0]
+		} else {
+			v, ok := s.Inherit()
+			if !ok {
+				return nil, errMissingTTL
+			}
+			ttl = v
 		}
-		v, ok := s.Inherit()
-		if !ok {
-			return nil, errMissingTTL
-		}
-		ttl = v
 	}
 	class := uint16(1)
 	if it.HasClass {
@@ -378,6 +466,7 @@ func (s *State) Record(it *Item, f *RecFact) (*ExpRec, error) {
 	}
 	if f != nil {
 		f.AbsOwner, f.EffTTL, f.AbsNames = owner, ttl, names
+		f.TTLUncertain, f.NoTTLState = len(alts) > 0, mayFail
 	}
 	// state update
 	s.PrevOwner, s.OwnerUnknown = namep(owner), false
@@ -386,8 +475,9 @@ func (s *State) Record(it *Item, f *RecFact) (*ExpRec, error) {
 			s.LastTTL = u32p(it.TTL)
 		}
 		s.U1 = false
+		s.LeakLast = nil
 	}
-	return &ExpRec{Owner: owner, TTL: ttl, Class: class, Type: rr.Header().Rrtype, RR: rr}, nil
+	return &ExpRec{Owner: owner, TTL: ttl, Class: class, Type: rr.Header().Rrtype, RR: rr, TTLAlts: alts, MayFail: mayFail}, nil
 }
 
 // generated interprets the line of one $GENERATE step. The state is not advanced (every step
